@@ -28,6 +28,23 @@ use tokio_tungstenite::WebSocketStream;
 /// Watchdog for every wait on an observable event.
 const WD: Duration = Duration::from_secs(25);
 
+/// Set when some watchdog has expired: a failing input is on its way into the report already, so every later
+/// wait of the run is cut short (a broken tree must not cost one full watchdog per connection and step).
+static HANG_SEEN: AtomicBool = AtomicBool::new(false);
+
+static THOROUGH: AtomicBool = AtomicBool::new(false);
+fn thorough_tier() -> bool {
+    THOROUGH.load(Ordering::SeqCst)
+}
+
+fn wd() -> Duration {
+    if HANG_SEEN.load(Ordering::SeqCst) { Duration::from_secs(3) } else { WD }
+}
+
+fn hang_seen() {
+    HANG_SEEN.store(true, Ordering::SeqCst);
+}
+
 trait Io: AsyncRead + AsyncWrite + Unpin + Send {}
 impl<T: AsyncRead + AsyncWrite + Unpin + Send> Io for T {}
 type BoxIo = Box<dyn Io>;
@@ -88,13 +105,17 @@ struct GroupCfg {
     query: u8,           // upgrade request: 0 "?client=7", 1 no query, 2 empty query "?"
     pr: bool,            // adopt: adopt_upgraded_partially_read with the client's first frame handed over as `buffered`
     lim: bool,           // with_limits: 1 MiB inbound frame/message limit (else default limits)
+    small_rt: bool,      // the server runs on a runtime with 4 workers and max_blocking_threads(1): one parked
+                         // off-reader handler exhausts the blocking pool at the moment the hooks have to run
+    frag: usize,         // adopt: capacity of the in-memory stream in bytes (1, 7, 61: every read/write is short and
+                         // mostly Pending); 0 = 256 KiB
 }
 impl GroupCfg {
     fn line(&self) -> String {
         format!(
-            "group {} {} {} {} {} {} {} {} {} {} o{}e{}s{}q{}p{}l{}",
+            "group {} {} {} {} {} {} {} {} {} {} o{}e{}s{}q{}p{}l{}r{}f{}",
             self.g, self.entry.name(), self.nconn, self.nctx, self.ndisc, self.reg as u8, self.cap, self.mode, self.nctx_reg, self.regpos,
-            self.off, self.nerr, self.static_accept as u8, self.query, self.pr as u8, self.lim as u8
+            self.off, self.nerr, self.static_accept as u8, self.query, self.pr as u8, self.lim as u8, self.small_rt as u8, self.frag
         )
     }
     fn hs(&self) -> bool {
@@ -123,6 +144,8 @@ impl GroupCfg {
         self.query = at('q').and_then(|x| x.to_digit(10)).unwrap_or(0) as u8;
         self.pr = at('p') == Some('1');
         self.lim = at('l') == Some('1');
+        self.small_rt = at('r') == Some('1');
+        self.frag = w.split('f').nth(1).and_then(|x| x.parse().ok()).unwrap_or(0);
     }
     /// user connect callbacks `u < reg_c()` run before the registry's insert
     fn reg_c(&self) -> usize {
@@ -178,7 +201,7 @@ fn valid(entry: Entry, mode: char, phase: &str, cause: &str) -> bool {
         "late" => false,
         _ if phase == "late" => false,
         "close" | "drop" | "proto" | "protog" | "malformed" | "malformeds" | "malformedl" | "toobig" => true,
-        "hpanic" => matches!(phase, "idle" | "inline" | "parked" | "parkedfut"),
+        "hpanic" => matches!(phase, "idle" | "inline" | "parked" | "parkedfut" | "backlog"),
         "cpanic" => phase == "connecting",
         "cancel" => match entry {
             Entry::Drain => mode == 'c',
@@ -386,7 +409,7 @@ fn make_router(sh: &Arc<Shared>) -> Router {
                 // the strike cancels the token's parent: wait until this running handler sees it
                 let t0 = Instant::now();
                 in_place(|| {
-                    while !ctx.is_cancelled() && t0.elapsed() < WD {
+                    while !ctx.is_cancelled() && t0.elapsed() < wd() {
                         std::thread::sleep(Duration::from_millis(1));
                     }
                 });
@@ -531,7 +554,7 @@ impl Strike {
     }
     async fn wait_fired(&self) {
         let mut rx = self.fired_rx.clone();
-        let _ = tokio::time::timeout(WD, rx.wait_for(|v| *v)).await;
+        let _ = tokio::time::timeout(wd(), rx.wait_for(|v| *v)).await;
     }
 }
 
@@ -585,10 +608,13 @@ fn request(id: u64, path: &str, body: &Value, notify: bool) -> WsMsg {
 
 /// Read frames until `stop` says so, EOF, an error, or the watchdog. Returns true if `stop` fired.
 async fn read_frames(ws: &mut Ws, wire: &mut Vec<String>, stop: impl Fn(&str) -> bool) -> Result<bool, &'static str> {
-    let deadline = tokio::time::Instant::now() + WD;
+    let deadline = tokio::time::Instant::now() + wd();
     loop {
         match tokio::time::timeout_at(deadline, ws.next()).await {
-            Err(_) => return Err("watchdog"),
+            Err(_) => {
+                hang_seen();
+                return Err("watchdog");
+            }
             Ok(None) => return Ok(false),
             Ok(Some(Err(_))) => return Ok(false),
             Ok(Some(Ok(WsMsg::Binary(b)))) => {
@@ -606,7 +632,7 @@ async fn read_frames(ws: &mut Ws, wire: &mut Vec<String>, stop: impl Fn(&str) ->
 }
 
 async fn wait_evt(rx: &mut UnboundedReceiver<Evt>, pred: impl Fn(&Evt) -> bool) -> bool {
-    let deadline = tokio::time::Instant::now() + WD;
+    let deadline = tokio::time::Instant::now() + wd();
     loop {
         match tokio::time::timeout_at(deadline, rx.recv()).await {
             Ok(Some(e)) => {
@@ -614,7 +640,10 @@ async fn wait_evt(rx: &mut UnboundedReceiver<Evt>, pred: impl Fn(&Evt) -> bool) 
                     return true;
                 }
             }
-            _ => return false,
+            _ => {
+                hang_seen();
+                return false;
+            }
         }
     }
 }
@@ -643,9 +672,19 @@ impl Group {
         let strike_member = cfg.entry == Entry::Drain && (scen.cause == "cancel" || scen.cause == "abort" || scen.phase == "stall");
         let mut arrived = false;
         let mut ready = false;
-        let r = self.clone().run_conn_inner(&rec, &mut ev_rx, &mut res, &cfg, &scen, strike_member, &mut arrived, &mut ready).await;
-        if let Err(note) = r {
-            res.notes.push(note);
+        // (overall safety net: nothing in the controller may wait for ever)
+        let t_start = Instant::now();
+        let r = tokio::time::timeout(WD * 5, self.clone().run_conn_inner(&rec, &mut ev_rx, &mut res, &cfg, &scen, strike_member, &mut arrived, &mut ready)).await;
+        match r {
+            Ok(Err(note)) => res.notes.push(note),
+            Err(_) => {
+                hang_seen();
+                res.notes.push("controller-watchdog".into());
+            }
+            Ok(Ok(())) => {}
+        }
+        if std::env::var("LC_TRACE").is_ok() && t_start.elapsed() > Duration::from_secs(2) {
+            eprintln!("SLOWCONN {:?} {} | {}", t_start.elapsed(), scen.line(0), cfg.line());
         }
         // never leave anything of this connection blocked
         rec.hold.open();
@@ -671,7 +710,15 @@ impl Group {
         let mut ws: Option<Ws> = None;
         match &self.ctl {
             ServerCtl::Adopt { shared } => {
-                let buf = if scen.phase == "queued" { 16 * 1024 } else { 256 * 1024 };
+                let buf = if scen.phase == "queued" || scen.phase == "backlog" {
+                    16 * 1024
+                } else if cfg.frag > 0 && matches!(scen.phase.as_str(), "idle" | "parked" | "parkedfut" | "late") {
+                    // (only while the server's reader is reading: a client send into a full 1-byte pipe whose other end
+                    // is held in a callback or a gated handler would wait for the strike that comes after it)
+                    cfg.frag
+                } else {
+                    256 * 1024
+                };
                 let (client_io, server_io) = tokio::io::duplex(buf);
                 let shared = shared.clone();
                 let token = ShutdownToken::new();
@@ -708,16 +755,17 @@ impl Group {
                 conn_task = Some(ConnTask { handle, token });
                 let b: BoxIo = Box::new(client_io);
                 let mut w: Ws = WebSocketStream::from_raw_socket(b, Role::Client, None).await;
+                // (the go signal first: through a 1-byte pipe the send only completes while the server is reading)
+                let _ = go_tx.send(());
                 if pr {
-                    w.send(request(1, "/echo", &json!(1), false)).await.map_err(|e| format!("send-early-echo {e}"))?;
+                    tokio::time::timeout(wd(), w.send(request(1, "/echo", &json!(1), false))).await.map_err(|_| "send-early-echo-watchdog")?.map_err(|e| format!("send-early-echo {e}"))?;
                     echo_sent = true;
                 }
-                let _ = go_tx.send(());
                 ws = Some(w);
             }
             _ => {
                 let addr = self.addr().unwrap();
-                let std_s = tokio::time::timeout(WD, tokio::net::TcpStream::connect(addr)).await.map_err(|_| "tcp-connect-watchdog")?.map_err(|e| format!("tcp-connect {e}"))?;
+                let std_s = tokio::time::timeout(wd(), tokio::net::TcpStream::connect(addr)).await.map_err(|_| "tcp-connect-watchdog")?.map_err(|e| format!("tcp-connect {e}"))?;
                 let std_s = std_s.into_std().map_err(|e| e.to_string())?;
                 if scen.phase == "queued" {
                     set_small_rcvbuf(&std_s);
@@ -725,7 +773,7 @@ impl Group {
                 let s = tokio::net::TcpStream::from_std(std_s).map_err(|e| e.to_string())?;
                 if let ServerCtl::Embedder { conns, .. } = &self.ctl {
                     let mut rx = conns.lock().await;
-                    conn_task = Some(tokio::time::timeout(WD, rx.recv()).await.map_err(|_| "accept-watchdog")?.ok_or("accept loop gone")?);
+                    conn_task = Some(tokio::time::timeout(wd(), rx.recv()).await.map_err(|_| "accept-watchdog")?.ok_or("accept loop gone")?);
                 }
                 raw_tcp = Some(s);
             }
@@ -756,7 +804,7 @@ impl Group {
             }
             // the server is done with it when it closes the socket
             let mut buf = [0u8; 4096];
-            let deadline = tokio::time::Instant::now() + WD;
+            let deadline = tokio::time::Instant::now() + wd();
             loop {
                 use tokio::io::AsyncReadExt;
                 match tokio::time::timeout_at(deadline, s.read(&mut buf)).await {
@@ -776,14 +824,14 @@ impl Group {
                 }
             }
             if let Some(ct) = conn_task {
-                let _ = tokio::time::timeout(WD, ct.handle).await;
+                let _ = tokio::time::timeout(wd(), ct.handle).await;
             }
             return Ok(());
         }
         if let Some(s) = raw_tcp.take() {
             let b: BoxIo = Box::new(s);
             let url = format!("ws://{}/repe{}", self.addr().unwrap(), cfg.query_str());
-            let (w, _resp) = tokio::time::timeout(WD, tokio_tungstenite::client_async(url, b)).await.map_err(|_| "ws-handshake-watchdog")?.map_err(|e| format!("ws-handshake {e}"))?;
+            let (w, _resp) = tokio::time::timeout(wd(), tokio_tungstenite::client_async(url, b)).await.map_err(|_| "ws-handshake-watchdog")?.map_err(|e| format!("ws-handshake {e}"))?;
             ws = Some(w);
         }
         let mut ws = ws.unwrap();
@@ -827,15 +875,17 @@ impl Group {
                     return Err("park-handler-not-entered".into());
                 }
             }
-            "queued" => {
-                // the client stops reading; responses large enough to jam the writer; the channel (capacity
-                // `cap`) fills and the reader blocks in `outbound_tx.send`
+            "queued" | "backlog" => {
+                // the client stops reading; responses large enough to jam the writer.  `queued`: the channel
+                // (capacity 1-2) fills and the reader blocks in `outbound_tx.send`; `backlog`: the channel has
+                // room (capacity 64), the writer is suspended mid-send with frames queued behind it and the
+                // reader is idle in `next()`
                 let size: u64 = if cfg.entry == Entry::Adopt { 256 * 1024 } else { 1024 * 1024 };
                 for j in 0..scen.nreq {
                     ws.feed(request(10 + j as u64, "/big", &json!({ "size": size }), false)).await.map_err(|e| format!("send-big {e}"))?;
                 }
                 ws.flush().await.map_err(|e| format!("flush-big {e}"))?;
-                let want = (cfg.cap as u64 + 2).min(scen.nreq as u64);
+                let want = if phase == "backlog" { scen.nreq as u64 } else { (cfg.cap as u64 + 2).min(scen.nreq as u64) };
                 if !wait_evt(ev_rx, |e| matches!(e, Evt::Big(n) if *n >= want)).await {
                     return Err("big-handlers-not-reached".into());
                 }
@@ -863,39 +913,42 @@ impl Group {
         let mut ws = Some(ws);
         match scen.cause.as_str() {
             "close" => {
-                let _ = ws.as_mut().unwrap().send(WsMsg::Close(None)).await;
+                let _ = tokio::time::timeout(wd(), ws.as_mut().unwrap().send(WsMsg::Close(None))).await;
             }
             "drop" => {
                 drop(ws.take());
             }
             "proto" => {
-                let _ = ws.as_mut().unwrap().send(WsMsg::Text("not binary".into())).await;
+                let _ = tokio::time::timeout(wd(), ws.as_mut().unwrap().send(WsMsg::Text("not binary".into()))).await;
             }
             "protog" => {
                 let w = ws.as_mut().unwrap();
-                let _ = w.get_mut().write_all(&[0xFFu8; 24]).await;
-                let _ = w.get_mut().flush().await;
+                let _ = tokio::time::timeout(wd(), async {
+                    let _ = w.get_mut().write_all(&[0xFFu8; 24]).await;
+                    let _ = w.get_mut().flush().await;
+                })
+                .await;
             }
             "toobig" => {
                 // larger than the server's inbound message limit (1 MiB in `lim` groups): tungstenite refuses it
-                let _ = tokio::time::timeout(WD, ws.as_mut().unwrap().send(WsMsg::Binary(vec![0u8; 3 << 20]))).await;
+                let _ = tokio::time::timeout(wd(), ws.as_mut().unwrap().send(WsMsg::Binary(vec![0u8; 3 << 20]))).await;
             }
             "malformed" => {
-                let _ = ws.as_mut().unwrap().send(WsMsg::Binary(vec![1, 2, 3, 4, 5, 6, 7, 8, 9, 10])).await;
+                let _ = tokio::time::timeout(wd(), ws.as_mut().unwrap().send(WsMsg::Binary(vec![1, 2, 3, 4, 5, 6, 7, 8, 9, 10]))).await;
             }
             "malformeds" => {
                 let mut f = RawFrame::request(77, false, 1, b"/echo", 2, b"1");
                 f.h.spec = 0x1234;
-                let _ = ws.as_mut().unwrap().send(WsMsg::Binary(f.to_vec())).await;
+                let _ = tokio::time::timeout(wd(), ws.as_mut().unwrap().send(WsMsg::Binary(f.to_vec()))).await;
             }
             "malformedl" => {
                 let mut f = RawFrame::request(78, false, 1, b"/echo", 2, b"1");
                 f.h.length += 5;
-                let _ = ws.as_mut().unwrap().send(WsMsg::Binary(f.to_vec())).await;
+                let _ = tokio::time::timeout(wd(), ws.as_mut().unwrap().send(WsMsg::Binary(f.to_vec()))).await;
             }
             "hpanic" => {
                 if phase != "inline" {
-                    let _ = ws.as_mut().unwrap().send(request(3, "/panic", &json!({ "k": scen.payload.to_string() }), false)).await;
+                    let _ = tokio::time::timeout(wd(), ws.as_mut().unwrap().send(request(3, "/panic", &json!({ "k": scen.payload.to_string() }), false))).await;
                 }
             }
             "cpanic" => {}
@@ -921,10 +974,10 @@ impl Group {
         // the writer is jammed (the client is not reading) and the token was cancelled: the disconnect
         // callbacks must run when the reader's block is left, not after the writer has been awaited
         let mut ended = false;
-        if phase == "queued" && scen.cause == "cancel" {
+        if (phase == "queued" && scen.cause == "cancel") || (phase == "backlog" && scen.cause != "drop") {
             ended = wait_evt(ev_rx, |e| matches!(e, Evt::Ended)).await;
             if !ended {
-                res.problems.push(("lifecycle.disconnect.after_writer_drain".into(), format!("embedder cancelled while the writer is jammed by a peer that does not read: the disconnect callbacks did not run within {:?} (they wait for the writer)", WD)));
+                res.problems.push(("lifecycle.disconnect.after_writer_drain".into(), format!("the connection ended ({}) while the writer is suspended in a send to a peer that keeps its socket open without reading: the disconnect callbacks did not run within {:?} (they wait for the writer or for the queue)", scen.cause, WD)));
             }
         }
         if let Some(w) = ws.as_mut() {
@@ -942,7 +995,7 @@ impl Group {
             // the handler's verdict is the observable (its ParkDone event may already have been consumed: a handler
             // waiting on `cancelled()` finishes before the disconnect callbacks do)
             let t0 = Instant::now();
-            while rec.park.lock().unwrap().is_none() && t0.elapsed() < WD {
+            while rec.park.lock().unwrap().is_none() && t0.elapsed() < wd() {
                 tokio::time::sleep(Duration::from_millis(1)).await;
             }
             let verdict = *rec.park.lock().unwrap();
@@ -954,7 +1007,7 @@ impl Group {
         }
         if let Some(ct) = conn_task {
             // embedder-owned task: its completion is a hard synchronisation point
-            if tokio::time::timeout(WD, ct.handle).await.is_err() {
+            if tokio::time::timeout(wd(), ct.handle).await.is_err() {
                 res.notes.push("connection-task-did-not-finish".into());
             }
         }
@@ -962,7 +1015,7 @@ impl Group {
             // the registry's own remove may be the LAST disconnect hook (registered after every user callback):
             // wait for the eviction as an event
             let t0 = Instant::now();
-            while !self.sh.registry_gone(id) && t0.elapsed() < WD {
+            while !self.sh.registry_gone(id) && t0.elapsed() < wd() {
                 tokio::time::sleep(Duration::from_millis(1)).await;
             }
             res.after = if self.sh.registry_gone(id) { "a".into() } else { "p".into() };
@@ -1188,8 +1241,33 @@ fn oracles(cfg: &GroupCfg, scen: &Scen, trace: &[String], res: &ConnResult, inl:
     out
 }
 
-async fn run_group(cfg: GroupCfg, scens: Vec<Scen>, server_rt: &tokio::runtime::Runtime, out: &Mutex<Out>, settle: Duration) {
+async fn run_group(cfg: GroupCfg, scens: Vec<Scen>, big_rt: &tokio::runtime::Runtime, small_rt: &tokio::runtime::Runtime, out: &Mutex<Out>, settle: Duration) {
+    let server_rt = if cfg.small_rt { small_rt } else { big_rt };
     let group = start_group(cfg.clone(), scens.len(), server_rt);
+    // observers: read-only calls hammered from another thread while the connections live and die
+    let stop_obs = Arc::new(AtomicBool::new(false));
+    let obs_bad = Arc::new(AtomicU64::new(0));
+    let observer = group.sh.registry.clone().map(|reg| {
+        let (stop, bad, n) = (stop_obs.clone(), obs_bad.clone(), scens.len());
+        std::thread::spawn(move || {
+            let mut k = 0u64;
+            while !stop.load(Ordering::SeqCst) {
+                let len = reg.len();
+                let peers = reg.peers();
+                if len > n || peers.len() > n || (reg.is_empty() && reg.len() > n) {
+                    bad.fetch_add(1, Ordering::SeqCst);
+                }
+                for p in &peers {
+                    let _ = (p.is_connected(), reg.get(p.peer_id()).is_some(), reg.aliases_for(p.peer_id()), reg.key_for(p.peer_id()));
+                }
+                let _ = format!("{:?}", reg);
+                k += 1;
+                if k % 64 == 0 {
+                    std::thread::sleep(Duration::from_micros(200));
+                }
+            }
+        })
+    });
     let mut recs = Vec::new();
     let mut tasks = Vec::new();
     for sc in &scens {
@@ -1214,6 +1292,20 @@ async fn run_group(cfg: GroupCfg, scens: Vec<Scen>, server_rt: &tokio::runtime::
     for t in tasks {
         results.push(t.await.unwrap_or_else(|e| ConnResult { notes: vec![format!("controller-join {e}")], live: "-".into(), after: "-".into(), ..Default::default() }));
     }
+    stop_obs.store(true, Ordering::SeqCst);
+    if let Some(o) = observer {
+        let t0 = Instant::now();
+        while !o.is_finished() && t0.elapsed() < wd() {
+            tokio::time::sleep(Duration::from_millis(2)).await;
+        }
+        if !o.is_finished() {
+            hang_seen();
+            out.lock().unwrap().count("note.observer-stuck");
+        }
+    }
+    if obs_bad.load(Ordering::SeqCst) > 0 {
+        out.lock().unwrap().oracle_fail("lifecycle.observer.inadmissible", &format!("a concurrent observer saw the registry hold more peers than the {} connections of the group", scens.len()), &[cfg.line()]);
+    }
     // stop the server
     group.strike.fire();
     match &group.ctl {
@@ -1224,7 +1316,7 @@ async fn run_group(cfg: GroupCfg, scens: Vec<Scen>, server_rt: &tokio::runtime::
     let mut drain_returned = true;
     if let Ok(g) = Arc::try_unwrap(group) {
         if let ServerCtl::Drain { task: Some(t), .. } = g.ctl {
-            drain_returned = tokio::time::timeout(WD, t).await.is_ok();
+            drain_returned = tokio::time::timeout(wd(), t).await.is_ok();
         }
         // a late duplicate would show up in the traces read below
         tokio::time::sleep(settle).await;
@@ -1290,7 +1382,7 @@ async fn run_group(cfg: GroupCfg, scens: Vec<Scen>, server_rt: &tokio::runtime::
 // ---------------------------------------------------------------------------------------------
 // generation
 // ---------------------------------------------------------------------------------------------
-const PHASES: [&str; 6] = ["idle", "inline", "parked", "parkedfut", "queued", "connecting"];
+const PHASES: [&str; 7] = ["idle", "inline", "parked", "parkedfut", "queued", "backlog", "connecting"];
 const CAUSES: [&str; 11] = ["close", "drop", "proto", "protog", "malformed", "malformeds", "malformedl", "hpanic", "cpanic", "cancel", "abort"];
 
 fn fill_scen(rng: &mut Rng, cfg: &GroupCfg, idx: String, phase: &str, cause: &str) -> Scen {
@@ -1300,6 +1392,8 @@ fn fill_scen(rng: &mut Rng, cfg: &GroupCfg, idx: String, phase: &str, cause: &st
     }
     // (only while the reader is reading: a 3 MiB send to a reader that is blocked or held would never complete)
     let cause = if cfg.lim && cause == "protog" && matches!(phase, "idle" | "parked" | "parkedfut") && rng.chance(1, 2) { "toobig" } else { cause };
+    // (garbage is only partly read by the server: through a tiny pipe the rest of it could never be written)
+    let cause = if cfg.frag > 0 && cause == "protog" { "proto" } else { cause };
     let payload = if cause == "cpanic" || cause == "hpanic" { *rng.pick(&[' ', 's', 'n']) } else { ' ' };
     // never more notifies than the channel holds: `try_send` must not depend on the writer's progress
     let mut budget = cfg.cap.min(6);
@@ -1311,11 +1405,16 @@ fn fill_scen(rng: &mut Rng, cfg: &GroupCfg, idx: String, phase: &str, cause: &st
         })
         .collect();
     let at = if phase == "connecting" { Some(rng.below(nuser as u64) as usize) } else { None };
-    let nreq = if phase == "queued" { 12 } else { 0 };
+    let nreq = match phase {
+        "queued" => 12,
+        "backlog" => 8,
+        _ => 0,
+    };
     Scen { idx, phase: phase.into(), cause: cause.into(), notif, at, nreq, payload }
 }
 
-fn random_cfg(rng: &mut Rng, g: usize, entry: Entry, mode: char, queued: bool) -> GroupCfg {
+fn random_cfg(rng: &mut Rng, g: usize, entry: Entry, mode: char, jam: Option<&str>) -> GroupCfg {
+    let queued = jam.is_some();
     let nctx_reg = rng.below(3) as usize;
     // plain serve_connection (no handshake handed over) now and then: the ctx callbacks must not fire
     let hs = match entry {
@@ -1331,7 +1430,11 @@ fn random_cfg(rng: &mut Rng, g: usize, entry: Entry, mode: char, queued: bool) -
         ndisc: rng.range(1, 3) as usize,
         reg: false,
         regpos: 0,
-        cap: if queued { 2 } else { *rng.pick(&[1usize, 3, 64, 64, 256]) },
+        cap: match jam {
+            Some("queued") => *rng.pick(&[1usize, 2]),
+            Some(_) => 64,
+            None => *rng.pick(&[1usize, 3, 64, 64, 256]),
+        },
         mode,
         off: *rng.pick(&['d', 'd', '0', '1', '4']),
         nerr: *rng.pick(&[0usize, 1, 1, 2]),
@@ -1339,7 +1442,28 @@ fn random_cfg(rng: &mut Rng, g: usize, entry: Entry, mode: char, queued: bool) -
         query: rng.below(3) as u8,
         pr: entry == Entry::Adopt && rng.chance(1, 2),
         lim: rng.chance(1, 2),
+        small_rt: false,
+        frag: 0,
     };
+    if entry == Entry::Adopt && !queued && rng.chance(1, 2) {
+        cfg.frag = *rng.pick(&[1usize, 7, 61]);
+        cfg.lim = false; // no 3 MiB frame through a 1-byte pipe
+        // (with a 1-byte pipe AND a partially-read first frame the writer's closing handshake runs into its 5 s
+        // SHUTDOWN_DRAIN_TIMEOUT: correct but slow, so that pair is left to the thorough tier)
+        if !thorough_tier() {
+            cfg.pr = false;
+        }
+    }
+    // every third group: the knobs take their extreme values, chosen by the bits of the group number, so that
+    // every pair of extremes occurs together within 32 such groups
+    if g % 3 == 0 && !queued {
+        let b = g / 3;
+        cfg.cap = [1usize, 256][b & 1];
+        cfg.off = ['0', '1'][(b >> 1) & 1];
+        cfg.lim = (b >> 2) & 1 == 1 && cfg.frag == 0;
+        cfg.nerr = [0usize, 2][(b >> 3) & 1];
+        cfg.query = [1u8, 2][(b >> 4) & 1];
+    }
     cfg.reg = rng.chance(1, 2);
     // half of the registry groups: some user callbacks are registered before `with_peer_registry`
     cfg.regpos = if cfg.reg && rng.chance(1, 2) { rng.range(1, 3) as usize } else { 0 };
@@ -1384,13 +1508,16 @@ fn plan(rng: &mut Rng, thorough: bool) -> Vec<Plan> {
                     }
                 }
                 rng.shuffle(&mut combos);
-                let (queued, mut rest): (Vec<_>, Vec<_>) = combos.into_iter().partition(|c| c.0 == "queued");
-                // queued connections: own groups (small channel), at most 4 at a time
-                for chunk in queued.chunks(4) {
-                    let g = plans.len();
-                    let cfg = random_cfg(rng, g, entry, mode, true);
-                    let scens = chunk.iter().enumerate().map(|(i, (p, c))| fill_scen(rng, &cfg, format!("{g}.{i}"), p, c)).collect();
-                    plans.push(Plan { cfg, scens });
+                let (queued, rest): (Vec<_>, Vec<_>) = combos.into_iter().partition(|c| c.0 == "queued");
+                let (backlog, mut rest): (Vec<_>, Vec<_>) = rest.into_iter().partition(|c| c.0 == "backlog");
+                // connections with a jammed writer: own groups (channel capacity chosen for the phase), at most 4 at a time
+                for (kind, list) in [("queued", queued), ("backlog", backlog)] {
+                    for chunk in list.chunks(4) {
+                        let g = plans.len();
+                        let cfg = random_cfg(rng, g, entry, mode, Some(kind));
+                        let scens = chunk.iter().enumerate().map(|(i, (p, c))| fill_scen(rng, &cfg, format!("{g}.{i}"), p, c)).collect();
+                        plans.push(Plan { cfg, scens });
+                    }
                 }
                 let mut si = (round + plans.len()) % sizes.len();
                 while !rest.is_empty() {
@@ -1402,12 +1529,19 @@ fn plan(rng: &mut Rng, thorough: bool) -> Vec<Plan> {
                     while chunk.len() < want && want >= 12 {
                         let ph = *rng.pick(&PHASES);
                         let ca = *rng.pick(&CAUSES);
-                        if ph != "queued" && valid(entry, mode, ph, ca) {
+                        if ph != "queued" && ph != "backlog" && valid(entry, mode, ph, ca) {
                             chunk.push((ph.to_string(), ca.to_string()));
                         }
                     }
                     let g = plans.len();
-                    let cfg = random_cfg(rng, g, entry, mode, false);
+                    let mut cfg = random_cfg(rng, g, entry, mode, None);
+                    // small groups now and then on a runtime whose blocking pool has two threads: a parked handler or two
+                    // exhaust it at the moment the hooks have to run
+                    // (only phases that neither hold a worker thread nor need a second blocking thread)
+                    cfg.small_rt = chunk.len() <= 3
+                        && chunk.iter().all(|(p, _)| matches!(p.as_str(), "idle" | "parked" | "parkedfut" | "late"))
+                        && chunk.iter().filter(|(p, _)| p.starts_with("parked")).count() <= 1
+                        && chunk.iter().any(|(p, _)| p.starts_with("parked"));
                     let scens = chunk.iter().enumerate().map(|(i, (p, c))| fill_scen(rng, &cfg, format!("{g}.{i}"), p, c)).collect();
                     plans.push(Plan { cfg, scens });
                 }
@@ -1435,6 +1569,9 @@ fn parse_replay(ops: &[String]) -> Vec<AnyPlan> {
                     };
                     p.steps.push(step);
                 }
+            }
+            Some("hsrun") if w.len() >= 4 => {
+                plans.push(AnyPlan::HsRun(HsRun { idx: w[1].into(), nrej: w[2].parse().unwrap_or(1), nacc: w[3].parse().unwrap_or(1) }));
             }
             Some("burst") if w.len() >= 5 => {
                 plans.push(AnyPlan::Burst(BurstPlan { idx: w[1].into(), entry: Entry::parse(w[2]).expect("entry"), n: w[3].parse().unwrap_or(16), end: w[4].into(), reps: 80 }));
@@ -1464,6 +1601,8 @@ fn parse_replay(ops: &[String]) -> Vec<AnyPlan> {
                     query: 0,
                     pr: false,
                     lim: false,
+                    small_rt: false,
+                    frag: 0,
                 };
                 let mut cfg = cfg;
                 if let Some(o) = w.get(11) {
@@ -1597,7 +1736,7 @@ fn rx_server(rx: &Arc<Rx>) -> WebSocketServer {
 /// Send a request and return the JSON body of its response.
 async fn rx_call(ws: &mut Ws, id: u64, path: &str, body: &Value) -> Result<Value, String> {
     ws.send(request(id, path, body, false)).await.map_err(|e| format!("send {path} {e}"))?;
-    let deadline = tokio::time::Instant::now() + WD;
+    let deadline = tokio::time::Instant::now() + wd();
     loop {
         match tokio::time::timeout_at(deadline, ws.next()).await {
             Err(_) => return Err(format!("{path}-response-watchdog")),
@@ -1615,7 +1754,7 @@ async fn rx_call(ws: &mut Ws, id: u64, path: &str, body: &Value) -> Result<Value
 }
 
 async fn rx_wait(rx: &mut UnboundedReceiver<RxEvt>, closed: &mut BTreeMap<usize, u32>, mut pred: impl FnMut(&RxEvt) -> bool) -> Option<RxEvt> {
-    let deadline = tokio::time::Instant::now() + WD;
+    let deadline = tokio::time::Instant::now() + wd();
     loop {
         match tokio::time::timeout_at(deadline, rx.recv()).await {
             Ok(Some(e)) => {
@@ -1626,7 +1765,10 @@ async fn rx_wait(rx: &mut UnboundedReceiver<RxEvt>, closed: &mut BTreeMap<usize,
                     return Some(e);
                 }
             }
-            _ => return None,
+            _ => {
+                hang_seen();
+                return None;
+            }
         }
     }
 }
@@ -1707,9 +1849,9 @@ async fn run_rx(plan: RxPlan, server_rt: &tokio::runtime::Runtime, out: &Mutex<O
                         WebSocketStream::from_raw_socket(b, Role::Client, None).await
                     } else {
                         let addr = addrs[*c % 2];
-                        let s = tokio::time::timeout(WD, tokio::net::TcpStream::connect(addr)).await.map_err(|_| "tcp-connect-watchdog")?.map_err(|e| e.to_string())?;
+                        let s = tokio::time::timeout(wd(), tokio::net::TcpStream::connect(addr)).await.map_err(|_| "tcp-connect-watchdog")?.map_err(|e| e.to_string())?;
                         let b: BoxIo = Box::new(s);
-                        let (w, _) = tokio::time::timeout(WD, tokio_tungstenite::client_async(format!("ws://{}/repe", addr), b)).await.map_err(|_| "ws-handshake-watchdog")?.map_err(|e| e.to_string())?;
+                        let (w, _) = tokio::time::timeout(wd(), tokio_tungstenite::client_async(format!("ws://{}/repe", addr), b)).await.map_err(|_| "ws-handshake-watchdog")?.map_err(|e| e.to_string())?;
                         w
                     };
                     clients.insert(*c, ws);
@@ -1945,7 +2087,7 @@ fn hs_spec(cfg: &str, req: &str) -> bool {
 async fn hs_until(counter: &AtomicU64, at_least: u64) -> bool {
     let t0 = Instant::now();
     while counter.load(Ordering::SeqCst) < at_least {
-        if t0.elapsed() > WD {
+        if t0.elapsed() > wd() {
             return false;
         }
         tokio::time::sleep(Duration::from_millis(1)).await;
@@ -1991,10 +2133,49 @@ async fn run_hs(plan: HsPlan, server_rt: &tokio::runtime::Runtime, out: &Mutex<O
         cnt.ctx.lock().unwrap().clear();
         let mut accepted = false;
         let mut note = None;
-        match tokio::time::timeout(WD, tokio::net::TcpStream::connect(addr)).await {
+        match tokio::time::timeout(wd(), tokio::net::TcpStream::connect(addr)).await {
+            Ok(Ok(mut s)) if end.starts_with("frag") => {
+                // the upgrade request arrives in pieces (every byte on its own / three pieces with a stall in between)
+                use tokio::io::AsyncReadExt;
+                let _ = s.set_nodelay(true);
+                let text = format!("GET {}?who=7 HTTP/1.1\r\nHost: x\r\nConnection: Upgrade\r\nUpgrade: websocket\r\nSec-WebSocket-Version: 13\r\nSec-WebSocket-Key: dGhlIHNhbXBsZSBub25jZQ==\r\n\r\n", req);
+                let bytes = text.as_bytes();
+                let cuts: Vec<usize> = if end == "frag1" { (1..=bytes.len()).collect() } else { vec![5, bytes.len() - 3, bytes.len()] };
+                let mut from = 0;
+                for (k, c) in cuts.iter().enumerate() {
+                    let _ = s.write_all(&bytes[from..*c]).await;
+                    let _ = s.flush().await;
+                    from = *c;
+                    if end == "frag3" || k % 24 == 0 {
+                        tokio::time::sleep(Duration::from_millis(if end == "frag3" { 20 } else { 1 })).await;
+                    }
+                }
+                let mut head = Vec::new();
+                let mut buf = [0u8; 512];
+                let deadline = tokio::time::Instant::now() + wd();
+                while !head.windows(4).any(|w| w == b"\r\n\r\n") {
+                    match tokio::time::timeout_at(deadline, s.read(&mut buf)).await {
+                        Ok(Ok(n)) if n > 0 => head.extend_from_slice(&buf[..n]),
+                        _ => break,
+                    }
+                }
+                accepted = head.starts_with(b"HTTP/1.1 101");
+                if accepted {
+                    if !hs_until(&cnt.connect, c0 + 1).await {
+                        note = Some("hs-connect-callback-watchdog");
+                    }
+                    drop(s);
+                    if !hs_until(&cnt.disconnect, d0 + 1).await {
+                        fails.push(("lifecycle.disconnect.missing".into(), "disconnect callback not invoked after the accepted connection was dropped".into()));
+                    }
+                    hs_until(&cnt.conn_err, e0 + 1).await;
+                } else {
+                    hs_until(&cnt.hs_err, h0 + 1).await;
+                }
+            }
             Ok(Ok(s)) => {
                 let b: BoxIo = Box::new(s);
-                match tokio::time::timeout(WD, tokio_tungstenite::client_async(format!("ws://{}{}?who=7", addr, req), b)).await {
+                match tokio::time::timeout(wd(), tokio_tungstenite::client_async(format!("ws://{}{}?who=7", addr, req), b)).await {
                     Ok(Ok((mut ws, _))) => {
                         accepted = true;
                         if !hs_until(&cnt.connect, c0 + 1).await {
@@ -2057,10 +2238,10 @@ async fn run_hs(plan: HsPlan, server_rt: &tokio::runtime::Runtime, out: &Mutex<O
 fn plan_hs() -> Vec<HsPlan> {
     let cfgs = ["", "/", "repe", "/repe", "repe/", "/repe//", "a/b", "/a/b/", "//", "/x-y_z"];
     let reqs = ["/", "/repe", "/repe/", "/a/b", "/a/b/", "/a", "/x-y_z", "/other"];
-    let ends = ["close", "malformed", "text"];
+    let ends = ["close", "malformed", "text", "frag1", "frag3"];
     cfgs.iter()
         .enumerate()
-        .map(|(i, c)| HsPlan { cfg: c.to_string(), reqs: reqs.iter().enumerate().map(|(j, r)| (format!("h{i}.{j}"), r.to_string(), ends[(i + j) % 3].to_string())).collect() })
+        .map(|(i, c)| HsPlan { cfg: c.to_string(), reqs: reqs.iter().enumerate().map(|(j, r)| (format!("h{i}.{j}"), r.to_string(), ends[(i + j) % 5].to_string())).collect() })
         .collect()
 }
 
@@ -2154,10 +2335,10 @@ async fn burst_once(plan: &BurstPlan, server_rt: &tokio::runtime::Runtime) -> (S
         for _ in 0..n {
             let b = barrier.clone();
             clients.push(tokio::spawn(async move {
-                let s = tokio::time::timeout(WD, tokio::net::TcpStream::connect(addr)).await.map_err(|_| "tcp-connect-watchdog")?.map_err(|e| e.to_string())?;
+                let s = tokio::time::timeout(wd(), tokio::net::TcpStream::connect(addr)).await.map_err(|_| "tcp-connect-watchdog")?.map_err(|e| e.to_string())?;
                 b.wait().await;
                 let bx: BoxIo = Box::new(s);
-                let (mut ws, _) = tokio::time::timeout(WD, tokio_tungstenite::client_async(format!("ws://{addr}/repe"), bx)).await.map_err(|_| "ws-handshake-watchdog")?.map_err(|e| e.to_string())?;
+                let (mut ws, _) = tokio::time::timeout(wd(), tokio_tungstenite::client_async(format!("ws://{addr}/repe"), bx)).await.map_err(|_| "ws-handshake-watchdog")?.map_err(|e| e.to_string())?;
                 let v = rx_call(&mut ws, 1, "/whoami", &json!(null)).await;
                 Ok((ws, v.ok().and_then(|v| v.as_u64())))
             }));
@@ -2200,11 +2381,11 @@ async fn burst_once(plan: &BurstPlan, server_rt: &tokio::runtime::Runtime) -> (S
         drop(ws);
     }
     let t0 = Instant::now();
-    while (total_disc.load(Ordering::SeqCst) as usize) < n - broken && t0.elapsed() < WD {
+    while (total_disc.load(Ordering::SeqCst) as usize) < n - broken && t0.elapsed() < wd() {
         tokio::time::sleep(Duration::from_millis(1)).await;
     }
     for t in server_tasks {
-        let _ = tokio::time::timeout(WD, t).await;
+        let _ = tokio::time::timeout(wd(), t).await;
     }
     let t1 = Instant::now();
     while reg.len() > 0 && t1.elapsed() < Duration::from_millis(500) {
@@ -2249,7 +2430,114 @@ fn plan_burst(rng: &mut Rng, thorough: bool) -> Vec<BurstPlan> {
     v
 }
 
+// ---------------------------------------------------------------------------------------------
+// runs (`hsrun` op lines): N rejected upgrades in a row, then M accepted connections one after the other on the
+// same server while the first of them stays open — the N-th / M-th must be treated like the first
+// ---------------------------------------------------------------------------------------------
+struct HsRun {
+    idx: String,
+    nrej: usize,
+    nacc: usize,
+}
+
+async fn run_hsrun(p: HsRun, server_rt: &tokio::runtime::Runtime, out: &Mutex<Out>) {
+    let cnt = Arc::new(HsCount::default());
+    let (c1, c3, c4) = (cnt.clone(), cnt.clone(), cnt.clone());
+    let router = Router::new().with_json_ctx("/whoami", |ctx: &CallContext, _v: Value| Ok(json!(ctx.peer().map(|p| p.peer_id().0))));
+    let server = WebSocketServer::new(router)
+        .on_peer_connect(move |_p: PeerHandle| {
+            c1.connect.fetch_add(1, Ordering::SeqCst);
+        })
+        .on_peer_disconnect(move |_id: PeerId| {
+            c3.disconnect.fetch_add(1, Ordering::SeqCst);
+        })
+        .on_error(move |e| {
+            if matches!(e, repe::ConnectionError::Handshake(_)) {
+                c4.hs_err.fetch_add(1, Ordering::SeqCst);
+            }
+        });
+    let l = std::net::TcpListener::bind("127.0.0.1:0").expect("bind");
+    l.set_nonblocking(true).unwrap();
+    let addr = l.local_addr().unwrap();
+    let task = server_rt.handle().spawn(async move {
+        let l = tokio::net::TcpListener::from_std(l).unwrap();
+        let _ = server.serve_listener(l, "/repe").await;
+    });
+    let line = format!("hsrun {} {} {}", p.idx, p.nrej, p.nacc);
+    let mut fails: Vec<(String, String)> = Vec::new();
+    let connect = |path: &'static str| async move {
+        let s = tokio::time::timeout(wd(), tokio::net::TcpStream::connect(addr)).await.ok()?.ok()?;
+        let b: BoxIo = Box::new(s);
+        tokio::time::timeout(wd(), tokio_tungstenite::client_async(format!("ws://{addr}{path}"), b)).await.ok()?.ok().map(|x| x.0)
+    };
+    let mut wrongly_accepted = 0;
+    for _ in 0..p.nrej {
+        if connect("/wrong").await.is_some() {
+            wrongly_accepted += 1;
+        }
+    }
+    hs_until(&cnt.hs_err, p.nrej as u64).await;
+    let mut ids: Vec<u64> = Vec::new();
+    let mut first: Option<Ws> = None;
+    let mut lost = 0;
+    for i in 0..p.nacc {
+        match connect("/repe").await {
+            Some(mut ws) => {
+                match rx_call(&mut ws, 1, "/whoami", &json!(null)).await.ok().and_then(|v| v.as_u64()) {
+                    Some(id) => ids.push(id),
+                    None => lost += 1,
+                }
+                if i == 0 {
+                    first = Some(ws);
+                } else {
+                    let _ = ws.send(WsMsg::Close(None)).await;
+                    drop(ws);
+                }
+            }
+            None => lost += 1,
+        }
+    }
+    drop(first);
+    hs_until(&cnt.disconnect, (p.nacc - lost) as u64).await;
+    tokio::time::sleep(Duration::from_millis(10)).await;
+    task.abort();
+    let (c, d, h) = (cnt.connect.load(Ordering::SeqCst), cnt.disconnect.load(Ordering::SeqCst), cnt.hs_err.load(Ordering::SeqCst));
+    let mut sorted = ids.clone();
+    sorted.sort();
+    let distinct = sorted.windows(2).all(|w| w[0] != w[1]);
+    if !distinct {
+        fails.push(("lifecycle.peer_id.duplicate".into(), format!("{} connections one after the other while the first stays open: ids {:?} repeat", p.nacc, sorted.windows(2).filter(|w| w[0] == w[1]).map(|w| w[0]).collect::<Vec<_>>())));
+    }
+    if wrongly_accepted > 0 || c as usize > p.nacc {
+        fails.push(("lifecycle.handshake_failure.hooks_fired".into(), format!("{} rejected upgrades in a row: {wrongly_accepted} were accepted, {c} connect callbacks for {} accepted connections", p.nrej, p.nacc)));
+    }
+    if lost > 0 || (c as usize) < p.nacc {
+        fails.push(("lifecycle.connect.missing".into(), format!("after {} rejected upgrades, {} accepted connections one after the other: {lost} were not served, {c} connect callbacks", p.nrej, p.nacc)));
+    }
+    if d as usize > p.nacc {
+        fails.push(("lifecycle.disconnect.duplicate".into(), format!("{d} disconnect callbacks for {} connections", p.nacc)));
+    } else if (d as usize) < p.nacc {
+        fails.push(("lifecycle.disconnect.missing".into(), format!("{d} disconnect callbacks for {} connections", p.nacc)));
+    }
+    let obs = format!("{} rejects={} herr={} hooks={}/{} ids={}", p.idx, p.nrej - wrongly_accepted, h, c, d, if distinct && ids.len() == p.nacc { "distinct" } else { "collide" });
+    let mut o = out.lock().unwrap();
+    for (sig, detail) in fails {
+        o.oracle_fail(&sig, &format!("[{line}] {detail}"), &[line.clone()]);
+    }
+    o.count("hsrun");
+    o.case(&line, &obs, true);
+}
+
+fn plan_hsrun(thorough: bool) -> Vec<HsRun> {
+    let mut v: Vec<(usize, usize)> = vec![(1, 1), (2, 2), (7, 8), (9, 9), (16, 17), (17, 65), (64, 2), (65, 66)];
+    if thorough {
+        v.extend([(256, 257), (1000, 3)]);
+    }
+    v.into_iter().enumerate().map(|(i, (nrej, nacc))| HsRun { idx: format!("hr{i}"), nrej, nacc }).collect()
+}
+
 enum AnyPlan {
+    HsRun(HsRun),
     Life(Plan),
     Rx(RxPlan),
     Hs(HsPlan),
@@ -2261,6 +2549,7 @@ fn main() {
     quiet_panics();
     let mut out = Out::new(&args.out);
     out.rule = "one case = one connection driven through (entry × phase × exit cause) on a real server, 1..32 connections per server instance concurrently; every valid combination of the matrix is generated once per round (quick: 4 rounds, thorough: 40) with random hook counts (1-3 plain, 0-2 handshake-aware connect callbacks, 1-3 disconnect callbacks), registry on/off, notifies per connect callback, the callback the connection is held in / that panics; non-trivial = the connection was accepted or its handshake failed as scripted and its callbacks' trace was compared (all cases). Registry scripts (rx lines; quick 60, thorough 600 scripts of 10-25 steps on serve_listener / serve_connection / adopt_upgraded servers with with_peer_registry): up to 5 live connections whose connect hook registers 0-3 aliases (a shared user key first, so later connections take over non-newest aliases), alias calls from inline and off-reader handlers, alias calls kept in flight (key conversion blocks until the peer is removed) while the connection ends by Close / drop / malformed frame; after every step get_by for every key ever used and get / aliases_for / key_for for every connection ever opened are compared with C18's model and with the harness's own reading of the history".into();
+    THOROUGH.store(args.thorough(), Ordering::SeqCst);
     let mut rng = Rng::new(args.seed);
     let plans: Vec<AnyPlan> = match args.replay_ops() {
         Some(ops) => parse_replay(&ops),
@@ -2269,12 +2558,14 @@ fn main() {
             let nrx = if args.thorough() { 600 } else { 60 };
             let mut v: Vec<AnyPlan> = plan_hs().into_iter().map(AnyPlan::Hs).collect();
             v.extend(plan_burst(&mut rng, args.thorough()).into_iter().map(AnyPlan::Burst));
+            v.extend(plan_hsrun(args.thorough()).into_iter().map(AnyPlan::HsRun));
             v.extend((0..nrx).map(|i| AnyPlan::Rx(plan_rx(&mut rng, 100_000 + i))));
             v.extend(plan(&mut rng, args.thorough()).into_iter().map(AnyPlan::Life));
             v
         }
     };
     let server_rt = tokio::runtime::Builder::new_multi_thread().worker_threads(48).max_blocking_threads(256).enable_all().thread_name("srv").build().unwrap();
+    let small_rt = tokio::runtime::Builder::new_multi_thread().worker_threads(4).max_blocking_threads(1).enable_all().thread_name("srv-small").build().unwrap();
     let client_rt = tokio::runtime::Builder::new_multi_thread().worker_threads(4).enable_all().thread_name("cli").build().unwrap();
     let settle = Duration::from_millis(if args.thorough() { 60 } else { 30 });
     let out = Mutex::new(out);
@@ -2292,7 +2583,7 @@ fn main() {
                         o.count(&format!("group.size.{}", p.scens.len()));
                     }
                     let (t0, gl) = (Instant::now(), p.cfg.line());
-                    run_group(p.cfg, p.scens, &server_rt, &out, settle).await;
+                    run_group(p.cfg, p.scens, &server_rt, &small_rt, &out, settle).await;
                     if std::env::var("LC_TRACE").is_ok() && t0.elapsed() > Duration::from_secs(2) {
                         eprintln!("SLOW {:?} {}", t0.elapsed(), gl);
                     }
@@ -2300,6 +2591,7 @@ fn main() {
                 AnyPlan::Rx(p) => run_rx(p, &server_rt, &out).await,
                 AnyPlan::Hs(p) => run_hs(p, &server_rt, &out).await,
                 AnyPlan::Burst(p) => run_burst(p, &server_rt, &out).await,
+                AnyPlan::HsRun(p) => run_hsrun(p, &server_rt, &out).await,
             }
             // a failing input has been found and recorded with its replay: no need to wait out the watchdogs
             // of every later group
@@ -2312,5 +2604,6 @@ fn main() {
     out.extra.insert("entries".into(), json!(["serve_listener", "serve_listener_with_graceful_drain (drain timeout 60 s / 0)", "accept + serve_connection(_with_handshake)", "accept + serve_connection_with_cancel(_and_handshake)", "adopt_upgraded over tokio duplex + serve_connection_with_cancel(_and_handshake)"]));
     out.finish();
     server_rt.shutdown_background();
+    small_rt.shutdown_background();
     client_rt.shutdown_background();
 }
